@@ -67,6 +67,7 @@ func checkProbe(c ProbeCase) pbt.Verdict {
 	readyNow := false  // model: an ok probe was delivered to the current instance and nothing reset it since
 	everReady := false // for the dependent
 	fatalSeen, flip := false, false
+	pendingFatal := false
 	last := ""
 	for i, st := range c.Steps {
 		live := e.W.LiveCmds("svc")
@@ -127,6 +128,13 @@ func checkProbe(c ProbeCase) pbt.Verdict {
 				last = "fail"
 			}
 		case sc.OpLiveProbe:
+			if st.Fatal && len(live) > 0 {
+				// gave up while the launcher is still running (status Launching): the daemon is to be
+				// treated as exited as soon as it counts as launched, i.e. when the launcher returns
+				fatalSeen = true
+				pendingFatal = true
+				continue
+			}
 			if st.Fatal {
 				fatalSeen = true
 				want := policyWants(c.Policy, 0) && (c.MaxRestarts == 0 || relaunches < c.MaxRestarts)
@@ -146,6 +154,20 @@ func checkProbe(c ProbeCase) pbt.Verdict {
 				}
 			}
 		case sc.OpExit:
+			if c.Daemon && st.Code == 0 && pendingFatal {
+				pendingFatal = false
+				want := policyWants(c.Policy, 0) && (c.MaxRestarts == 0 || relaunches < c.MaxRestarts)
+				if want && nLaunchAfter != nLaunchBefore+1 {
+					return fail("step %d: the daemon's liveness probe had given up while it was launching; launcher returned, policy %q: not relaunched (status %s)", i, c.Policy, status)
+				}
+				if !want && (nLaunchAfter != nLaunchBefore || status == "Launched" || status == "Launching" || status == "Running") {
+					return fail("step %d: the daemon's liveness probe had given up while it was launching; launcher returned, policy %q: status %s, launches %d -> %d", i, c.Policy, status, nLaunchBefore, nLaunchAfter)
+				}
+				if want {
+					relaunches++
+				}
+				continue
+			}
 			if c.Daemon && st.Code == 0 {
 				// the launcher of a daemon returned: the daemon counts as running
 				if status != "Launched" {
@@ -225,6 +247,14 @@ func genProbe(t *rapid.T) ProbeCase {
 	}
 	n := pbt.Range(t, 1, 10)
 	if c.Daemon {
+		if pbt.Pct(t, 35) {
+			// the probe gives up before the launcher has returned
+			if pbt.Pct(t, 50) {
+				c.Steps = append(c.Steps, sc.Step{Op: sc.OpLiveProbe, Proc: "svc"})
+			}
+			c.Steps = append(c.Steps, sc.Step{Op: sc.OpLiveProbe, Proc: "svc", Fatal: true})
+			c.Steps = append(c.Steps, sc.Step{Op: sc.OpExit, Proc: "svc", Code: 0}) // launcher of the first launch
+		}
 		c.Steps = append(c.Steps, sc.Step{Op: sc.OpExit, Proc: "svc", Code: 0})
 		for i := 0; i < n; i++ {
 			switch pbt.Pick(t, []string{"ok", "fail", "fatal"}) {
